@@ -28,6 +28,7 @@ import (
 	"os"
 	"os/exec"
 	"path/filepath"
+	"runtime"
 	"sort"
 	"strconv"
 	"strings"
@@ -49,10 +50,15 @@ type mspec struct {
 	seq      string // odd | even : seq_no of A's rpc_error message (odd = the client must ack it)
 	inflight int
 	answerB  string // obj | error : what B answers to the repeated request
+	sched    string // free | ackclose : ackclose = the receive loop's ack of A's rpc_error is held until the caller has closed the old connection
 }
 
 func (s mspec) String() string {
-	return fmt.Sprintf("setup=%s,code=%d,text=%s,seq=%s,inflight=%d,b=%s", s.setup, s.code, vc.HexS(s.text), s.seq, s.inflight, s.answerB)
+	sc := s.sched
+	if sc == "" {
+		sc = "free"
+	}
+	return fmt.Sprintf("setup=%s,code=%d,text=%s,seq=%s,inflight=%d,b=%s,sched=%s", s.setup, s.code, vc.HexS(s.text), s.seq, s.inflight, s.answerB, sc)
 }
 
 func parseSpec(x string) mspec {
@@ -73,6 +79,8 @@ func parseSpec(x string) mspec {
 			s.inflight, _ = strconv.Atoi(v)
 		case "b":
 			s.answerB = v
+		case "sched":
+			s.sched = v
 		}
 	}
 	return s
@@ -81,8 +89,12 @@ func parseSpec(x string) mspec {
 func migrateScenarios(thorough bool) []mspec {
 	var l []mspec
 	add := func(setup string, code int, text, seq string, inflight int, b string) {
-		l = append(l, mspec{setup, code, text, seq, inflight, b})
+		l = append(l, mspec{setup, code, text, seq, inflight, b, "free"})
 	}
+	// the order a free run reaches only now and then: A's rpc_error needs an acknowledgement (odd seq_no, as real
+	// servers send it); the receive loop writes that ack after the caller has closed the connection to A
+	l = append(l, mspec{"direct", 303, "PHONE_MIGRATE_2", "odd", 0, "obj", "ackclose"})
+	l = append(l, mspec{"direct", 303, "PHONE_MIGRATE_2", "odd", 1, "obj", "ackclose"})
 	// configured data centre: DC 2 (and 12) live at B
 	add("direct", 303, "PHONE_MIGRATE_2", "even", 0, "obj")
 	add("direct", 303, "PHONE_MIGRATE_2", "odd", 0, "obj")
@@ -245,6 +257,58 @@ func classifyErr(err error, base int) (class string, e *mtproto.ErrResponseCode)
 	return "other", nil
 }
 
+// gate: a two-point scheduler on the client's yield hook. The receive loop (the first goroutine that
+// reaches "read") is held at the "prelock" of its acknowledgement, the caller at "reconnecting".
+type gate struct {
+	mu            sync.Mutex
+	rx            int64
+	armed         bool
+	rxHeld        bool
+	callerHeld    bool
+	rxParked      chan struct{}
+	rxRelease     chan struct{}
+	callerParked  chan struct{}
+	callerRelease chan struct{}
+}
+
+func goid() int64 {
+	buf := make([]byte, 64)
+	n := runtime.Stack(buf, false)
+	f := strings.Fields(string(buf[:n]))
+	if len(f) < 2 {
+		return -1
+	}
+	id, _ := strconv.ParseInt(f[1], 10, 64)
+	return id
+}
+
+func (g *gate) arm() { g.mu.Lock(); g.armed = true; g.mu.Unlock() }
+
+func (g *gate) hook(point string, id int64) {
+	me := goid()
+	g.mu.Lock()
+	if point == "read" && g.rx == 0 {
+		g.rx = me
+	}
+	holdRx := g.armed && point == "prelock" && me == g.rx && !g.rxHeld
+	holdCaller := g.armed && point == "reconnecting" && me != g.rx && !g.callerHeld
+	if holdRx {
+		g.rxHeld = true
+	}
+	if holdCaller {
+		g.callerHeld = true
+	}
+	g.mu.Unlock()
+	if holdRx {
+		close(g.rxParked)
+		<-g.rxRelease
+	}
+	if holdCaller {
+		close(g.callerParked)
+		<-g.callerRelease
+	}
+}
+
 const tokenB = "answered-by-B"
 const tokenA = "answered-by-A"
 
@@ -284,6 +348,10 @@ func migrateOne(id string, sp mspec) {
 		die("refserver B: %v", err)
 	}
 	sess := filepath.Join(dir, "session.json")
+	gt := &gate{rxParked: make(chan struct{}), rxRelease: make(chan struct{}), callerParked: make(chan struct{}), callerRelease: make(chan struct{})}
+	if sp.sched == "ackclose" {
+		mtproto.VerifYieldHook = gt.hook
+	}
 	var m *mtproto.MTProto
 	var cl *telegram.Client
 	_, portB, _ := net.SplitHostPort(B.Addr())
@@ -429,7 +497,7 @@ func migrateOne(id string, sp mspec) {
 		}()
 		if sp.setup == "direct" {
 			// straight through MakeRequest: the error comes back as makeRequest made it
-			r, err := m.MakeRequest(&telegram.AuthSendCodeParams{PhoneNumber: "+79990001122", ApiID: 94575, ApiHash: "a3406de8d171bb422bb6ddf3bbd800e2", Settings: &telegram.CodeSettings{}})
+			r, err := m.MakeRequest(&telegram.AuthSendCodeParams{PhoneNumber: "+79990001122", APIID: 94575, APIHash: "a3406de8d171bb422bb6ddf3bbd800e2", Settings: &telegram.CodeSettings{}})
 			v, _ := r.(*telegram.AuthSentCode)
 			res = outcome{v, err}
 		} else {
@@ -448,7 +516,41 @@ func migrateOne(id string, sp mspec) {
 	if sp.seq == "odd" {
 		seq = 1
 	}
+	gt.arm()
 	_ = A.Send(refserver.Msg{MsgID: A.NextMsgID(true), SeqNo: seq, Body: refserver.RpcResult(req.MsgID, refserver.RpcError(int32(sp.code), sp.text))})
+	if sp.sched == "ackclose" {
+		ok := true
+		select {
+		case <-gt.rxParked:
+		case <-time.After(watchdog):
+			o.put("sched", "receive-loop-never-acked")
+			ok = false
+		}
+		if ok {
+			select {
+			case <-gt.callerParked:
+			case <-time.After(watchdog / 2):
+				// the tree has no yield point between Disconnect and CreateConnection (hook commit missing)
+				o.put("sched", "unavailable")
+				ok = false
+			}
+		}
+		if ok {
+			// wait until the server has seen the client close the connection (an acknowledgement is a
+			// harmless probe: nobody reads on the client side any more)
+			dl := time.Now().Add(watchdog)
+			for time.Now().Before(dl) {
+				if A.Send(refserver.Msg{MsgID: A.NextMsgID(false), SeqNo: 2, Body: refserver.MsgsAck(req.MsgID)}) != nil {
+					break
+				}
+				time.Sleep(time.Millisecond)
+			}
+			o.put("sched", "ack-after-close")
+		}
+		close(gt.rxRelease)
+		time.Sleep(60 * time.Millisecond) // the receive loop writes its ack on the closed connection now
+		close(gt.callerRelease)
+	}
 
 	// B answers whatever request reaches it (the repeated one), once
 	answerB := func(f refserver.Frame) {
